@@ -407,11 +407,11 @@ def _num(rng, lo=0.05, hi=900.0):
     return rng.choice(["%.3f", "%.5e", "%.1f"]) % v
 
 
-def gen_pp(rng, defs, opls):
+def gen_pp(rng, defs, opls, hints=None):
     """the preprocessor lines of a random input: the macro definitions (and, sometimes, the OPLS tag as a line of its own),
-    half of the time with a run of them inside one #ifdef / #ifndef block.  Every #define sits outside the block or in its
-    selected branch (the stated domain; membership is decided by TLC, not here).  Returns (lines, opls flag left for the
-    unconditional first line, wrapok: the lines end with the #endif of a selected branch)"""
+    half of the time with a run of them inside one #ifdef / #ifndef block; some blocks also carry #define lines (other
+    values of the same macros) in the branch that is not selected: they must have no effect.  Returns (lines, opls flag left
+    for the unconditional first line, wrapok: the lines end with the #endif of a selected branch)"""
     lines = [{"op": "define", "name": d["name"], "toks": list(d["toks"])} for d in defs]
     if opls and rng.random() < 0.5:
         lines.insert(rng.randint(0, len(lines)), {"op": "define", "name": rng.choice(["_FF_OPLS", "_FF_OPLS_AA"]), "toks": []})
@@ -424,8 +424,9 @@ def gen_pp(rng, defs, opls):
     tag = "C09_TAG_%d" % rng.randint(1, 9)
     deftag = {"op": "define", "name": tag, "toks": []}
     pl = lambda op, name="": {"op": op, "name": name, "toks": []}
-    form = rng.choice(["guard", "guard", "ifdef", "else-ifdef", "else-ifndef", "ifndef-late"])
+    form = rng.choice(["guard"] * 4 + ["ifdef", "else-ifdef", "else-ifndef", "ifndef-late", "flex", "flex", "default", "dead"])
     empty_else = rng.random() < 0.3
+    other = [dict(d, toks=[_num(rng) for _ in d["toks"]]) for d in inside if d["toks"]]   # the same macros with other values
     if form == "guard":          # #ifndef TAG / #define TAG / macros / #endif
         k = rng.choice([0, 0, len(inside)])
         body = inside[:k] + [deftag] + inside[k:]
@@ -442,9 +443,25 @@ def gen_pp(rng, defs, opls):
     elif form == "else-ifndef":  # #define TAG ... #ifndef TAG / #else / macros / #endif
         out = [deftag] + pre + [pl("ifndef", tag), pl("else")] + inside + [pl("endif")] + post
         last_selected = True
-    else:                        # #ifndef TAG / macros / #endif ... #define TAG
+    elif form == "ifndef-late":  # #ifndef TAG / macros / #endif ... #define TAG
         out = pre + [pl("ifndef", tag)] + inside + ([pl("else")] if empty_else else []) + [pl("endif"), deftag] + post
         last_selected = not empty_else
+    elif form == "flex":         # [#define TAG] #ifdef TAG / macros / #else / the same macros, other values / #endif
+        defined = rng.random() < 0.5
+        first, second = (inside, other) if defined else (other, inside)
+        out = ([deftag] if defined else []) + pre + [pl("ifdef", tag)] + first + [pl("else")] + second + [pl("endif")] + post
+        last_selected = not defined
+    elif form == "default":      # macros ... #ifndef <macro> / #define <macro> default / #endif: the default must not win
+        out = pre + inside
+        for d in other[:2]:
+            out = out + [pl("ifndef", d["name"]), d, pl("endif")]
+        out = out + post
+        last_selected = False
+    else:                        # macros ... #ifdef TAG (not defined) / the same macros, other values / #endif
+        out = pre + inside + [pl("ifdef", tag)] + other + [pl("endif")] + post
+        last_selected = False
+    if hints is not None:
+        hints["unselected"] = form in ("flex", "default", "dead") and bool(other)
     return out, opls, bool(last_selected and out[-1]["op"] == "endif")
 
 
@@ -578,7 +595,7 @@ def gen_topology(rng, big=False, hints=None):
     molecules = []
     for _ in range(rng.randint(1, 6)):
         molecules.append({"name": rng.choice(mols)["name"], "n": rng.randint(1, 40 if big else 8)})
-    pp, opls_first, wrapok = gen_pp(rng, defs, opls)
+    pp, opls_first, wrapok = gen_pp(rng, defs, opls, hints)
     if hints is not None:
         hints["wrapok"] = wrapok
     top = {"opls": opls_first, "btype": btype, "defs": pp, "tables": tables, "mols": mols, "molecules": molecules}
@@ -643,7 +660,8 @@ def _record_chunk(arg):
             out.append({"seed": sd, "top": top, "nbtok": nb, "layout": lay, "wrapok": hints["wrapok"],
                         "exception": "projection failed: %s: %s" % (type(exc).__name__, exc)})
             continue
-        out.append({"seed": sd, "top": top, "nbtok": nb, "layout": lay, "wrapok": hints["wrapok"], "nb": nb_abstract(nb), "obs": obs, "nbobs": nbobs})
+        out.append({"seed": sd, "top": top, "nbtok": nb, "layout": lay, "wrapok": hints["wrapok"], "unselected": bool(hints.get("unselected")),
+                    "nb": nb_abstract(nb), "obs": obs, "nbobs": nbobs})
     shutil.rmtree(wd, ignore_errors=True)
     return out
 
@@ -837,14 +855,14 @@ SENS = [("TypeResolveExport", "TR_dev_onedir.cfg", "Conforms", "F4 (repaired): p
         ("TypeResolveExport", "TR_dev_lazycond.cfg", "Conforms", "a #define inside a block recorded only if the block's condition still holds at that line "
                                                                  "(include guard: everything after the guard's own #define dropped)"),
         ("TypeResolveExport", "TR_dev_blockdropped.cfg", "Conforms", "a #define inside any #ifdef / #ifndef block ignored"),
-        ("TypeResolveExport", "TR_find_inactive.cfg", "Conforms", "reported finding, outside the stated domain: the reader records a #define of a branch "
-                                                                  "that is not selected (this is why such inputs are not judged)"),
+        ("TypeResolveExport", "TR_find_inactive.cfg", "Conforms", "F37 (repaired): a #define of a branch that is not selected recorded"),
         ("TypeResolveNBExport", "TR_nb_dev_override.cfg", "NConforms", "generated pairs overwrite nonbond_params"),
         ("TypeResolveNBExport", "TR_nb_dev_eps.cfg", "NConforms", "eps = C6^2/(2 C12)"),
         ("TypeResolveNBExport", "TR_nb_dev_sigma.cfg", "NConforms", "sigma^6 = C6/C12"),
         ("TypeResolveNBExport", "TR_nb_dev_self.cfg", "NConforms", "self terms taken from the first atom type")]
 HOLD = [("TypeResolveExport", "TR_devhold_pairs.cfg", "I-layer with DevPairsUntyped = P-layer with the pairs deviation"),
-        ("TypeResolveExport", "TR_devhold_tblmacro.cfg", "I-layer with DevTableMacrosKept = P-layer with the table-macro deviation")]
+        ("TypeResolveExport", "TR_devhold_tblmacro.cfg", "I-layer with DevTableMacrosKept = P-layer with the table-macro deviation"),
+        ("TypeResolveExport", "TR_devhold_inactivekept.cfg", "I-layer with DevDefineInactiveKept = P-layer with every #define line counted")]
 
 
 ACTIONS = ["PragmaIf", "PragmaElse", "PragmaEndif", "PragmaDefine", "ReplaceDefines", "SkipItem", "NextKind", "BeginLookup", "LookupExact", "LookupReversed", "PatternTry", "ApplyTerms", "EndBlock",
@@ -853,24 +871,29 @@ ACTIONS = ["PragmaIf", "PragmaElse", "PragmaEndif", "PragmaDefine", "ReplaceDefi
 
 def run(tier):
     ck = c.Check(PROP, tier)
-    ck.rule = ("S->I: every case of three families enumerated by TLC - dihedral grid (16 wildcard masks x entry forward/reversed x interaction "
+    ck.rule = ("S->I: every case of four families enumerated by TLC - dihedral grid (16 wildcard masks x entry forward/reversed x interaction "
                "listed forward/reversed x no competitor or a competitor of every mask with a different wildcard count, before or after the entry, "
                "x entry spoiled by a foreign type x 1-3 terms x 1-3 instances x literal / macro parameters), plain kinds (bonds, angles, "
                "constraints, pairs x key forward/reversed x listed forward/reversed x atom types / OPLS bond types x entry present / absent x "
-               "macro in the entry), macro styles (5 styles^3 bonds x angle styles x instances, two molecule types), non-bonded (1-3 atom types "
+               "macro in the entry), macro styles (5 styles^3 bonds x angle styles x instances, two molecule types), preprocessor lines (one "
+               "#ifdef / #ifndef block, tag defined before it or not, with / without #else, a macro used by an interaction, a macro used by the "
+               "type-table entries and the OPLS tag each before / in the first branch / in the #else branch / after the block, the block's own "
+               "tag defined first or last in a branch or after the block; I = P is checked on every combination, #define lines in "
+               "branches that are not selected included, and every combination is replayed, the four file layouts in turn - quick: the OPLS tag moved only while the two "
+               "macros sit together - or each under all four layouts), non-bonded (1-3 atom types "
                "x every subset of the unordered pairs in nonbond_params x name order x gen-pairs x comb-rule 1-3, and a 6x6 grid of C6/C12); a "
                "case is distinct by its abstract input. I->S: one record per seeded random topology (4-9 atom types, 1-4 molecule types with "
                "mixed interaction kinds, up to 6 [ molecules ] lines with up to 40 instances each, random nonbond_params, the macro definitions and the OPLS tag half of the time inside an "
-               "#ifdef / #ifndef block: include guard, tag defined before, #else branch, tag defined later) or repository topology")
+               "#ifdef / #ifndef block: include guard, tag defined before, #else branch, tag defined later, other values of the same macros in the "
+               "branch that is not selected, default-value blocks) or repository topology")
     ck.assumptions = [
         "no ties: two different keys of equal wildcard count matching one interaction, a key and its reverse both listed, a repeated key outside "
         "dihedraltypes, a pair listed twice in nonbond_params (TLC decides membership; such records are skipped and counted)",
         "the combination rule is not asserted (DESIGN N1): a generated mixed pair must exist and, under comb-rule 1, its sigma/eps must reproduce "
         "what gen_pairs produced",
         "one function type per type table; macros defined before use, macro bodies free of macro names, a tag (macro without value) never used "
-        "as a parameter; #ifdef / #ifndef blocks around #define lines are balanced and not nested, contain no #include, and every #define sits "
-        "outside the block or in its selected branch (cpp: decided where the block opens) - the reader also records a #define of a branch that is "
-        "not selected (reported finding; TLC shows it on the small instance, TR_find_inactive), such inputs are not judged",
+        "as a parameter; #ifdef / #ifndef blocks around #define lines are balanced and not nested and contain no #include (a #define in a branch "
+        "that is not selected is in the domain and must have no effect: F37, repaired)",
         "bond types are used only when _FF_OPLS / _FF_OPLS_AA is defined (DESIGN 4.9); [ impropers ] has no types directive and is not generated",
         "a [ pairs ] entry without parameters is in the domain only when a matching [ pairtypes ] entry exists (the generation of 1-4 parameters "
         "from atom types is not claimed)",
@@ -940,7 +963,10 @@ def run(tier):
     repo = record_repo(ck)
     ck.extra["records"] = {"random": len(recs), "random_large": len(big), "repository": len(repo),
                            "with_conditional_block": sum(1 for r in recs + big if "block" in pp_features(r["top"]["defs"])),
-                           "with_include_guard": sum(1 for r in recs + big if "guard_then_macro" in pp_features(r["top"]["defs"]))}
+                           "with_include_guard": sum(1 for r in recs + big if "guard_then_macro" in pp_features(r["top"]["defs"])),
+                           "with_define_in_unselected_branch": sum(1 for r in recs + big if r.get("unselected"))}
+    if not ck.extra["records"]["with_define_in_unselected_branch"]:
+        raise c.MachineryError("no recorded topology with a #define in a branch that is not selected")
     if not ck.extra["records"]["with_include_guard"]:
         raise c.MachineryError("no recorded topology with an include guard: the random inputs are vacuous for the preprocessor lines")
     ex = [r for r in recs if "exception" not in r]
